@@ -3,6 +3,7 @@ import CacheVerif.Props.C06
 import CacheVerif.Props.C08
 import CacheVerif.Expect.Ctor
 import CacheVerif.Proofs.DeepSource
+import CacheVerif.Proofs.DeepJanitor
 /-!
 # C15 — the janitor cleans up on its own, only when configured, and dies with the cache
 
@@ -89,7 +90,66 @@ theorem C15_janitor_loop :
     hasInfix ["func{", "R:stop", "close", "}", "runtime.SetFinalizer"] Gen.Facts.cache_xsync_map_newXsyncMap = true := by
   decide
 
+/-! ### the goroutine itself, as printed from the constructors of both files on every run
+
+`tools/go2deep` prints the goroutine each constructor starts and the finalizer it registers (`Generated/Deep.lean`:
+`xsyncMap_janitor`, `xsyncMap_finalizer`, and the `Of` pair); `Deep/Janitor.lean` gives that syntax its meaning event
+by event (the ticker fires after the clock advanced / the finalizer closes its channel), the clause bodies running
+through the same interpreter as the method bodies. -/
+
+/-- **started iff configured**: the guard around the `go` statement is the machine-translated condition of
+`C15_enabled_iff` (interval > 0 after normalisation) and the ticker's period is the cleanup interval - both files -/
+theorem C15_source_started (c : Gen.Config) :
+    Gen.Deep.xsyncMap_janitor.started (DeepJanitor.fields c) = some (Gen.newXsyncMap_janitor c) ∧
+    Gen.Deep.xsyncMap_janitor.period (DeepJanitor.fields c) = some c.cleanupInterval ∧
+    Gen.Deep.xsyncMapOf_janitor.started (DeepJanitor.fields c) = some (Gen.newXsyncMapOf_janitor c) ∧
+    Gen.Deep.xsyncMapOf_janitor.period (DeepJanitor.fields c) = some c.cleanupInterval :=
+  ⟨(DeepJanitor.map_started c).1, (DeepJanitor.map_started c).2, (DeepJanitor.mapOf_started c).1, (DeepJanitor.mapOf_started c).2⟩
+
+/-- **the life of the goroutine** (text of both files): over any number of ticks followed by the finalizer's event the
+cache goes through exactly one `DeleteExpired` pass of the model per tick, at that tick's clock (what a pass removes
+and reports: `C15_tick_cleans`, C06), and then the goroutine has returned -/
+theorem C15_source_janitor_life (δs : List Int) (s : Cache.St K V) :
+    Deep.janitorRun Deep.twinMap Gen.Deep.xsyncMap_janitor Gen.Deep.xsyncMap_finalizer s (δs.map .tick ++ [.stop]) =
+      Deep.janitorRun Deep.twinMapOf Gen.Deep.xsyncMapOf_janitor Gen.Deep.xsyncMapOf_finalizer s (δs.map .tick ++ [.stop]) ∧
+    ∃ cbs, Deep.janitorRun Deep.twinMap Gen.Deep.xsyncMap_janitor Gen.Deep.xsyncMap_finalizer s (δs.map .tick ++ [.stop]) =
+      some (true, δs.foldl (fun s δ => (Cache.step { s with now := s.now + δ } .deleteExpired).1) s, cbs) := by
+  rw [DeepJanitor.ticks_then_stop _ _ _ (Or.inl rfl) DeepJanitor.map_tick_clause DeepJanitor.map_stop_clause,
+    DeepJanitor.ticks_then_stop _ _ _ (Or.inr rfl) DeepJanitor.mapOf_tick_clause DeepJanitor.mapOf_stop_clause]
+  exact ⟨rfl, _, rfl⟩
+
+/-- one tick of the printed goroutine: afterwards nothing expired at the tick's clock remains, everything unexpired is
+untouched, and the goroutine is still in its loop -/
+theorem C15_source_janitor_tick (s : Cache.St K V) (hw : AMap.WF s.items) (δ : Int) (k : K) :
+    ∃ s' cbs, Deep.janitorEvent Deep.twinMap Gen.Deep.xsyncMap_janitor Gen.Deep.xsyncMap_finalizer s (.tick δ) = some (false, s', cbs) ∧
+      Deep.janitorEvent Deep.twinMapOf Gen.Deep.xsyncMapOf_janitor Gen.Deep.xsyncMapOf_finalizer s (.tick δ) = some (false, s', cbs) ∧
+      s'.items.get k = match s.items.get k with
+        | some i => if TTL.expired i.e (s.now + δ) then none else some i
+        | none => none :=
+  ⟨_, _, DeepJanitor.tick_is_pass _ _ _ (Or.inl rfl) DeepJanitor.map_tick_clause s δ,
+    DeepJanitor.tick_is_pass _ _ _ (Or.inr rfl) DeepJanitor.mapOf_tick_clause s δ,
+    C15_tick_cleans { s with now := s.now + δ } hw k⟩
+
+/-- **dies with the cache** (text of both files): the event the finalizer produces makes the goroutine return (its
+deferred `ticker.Stop()` included) and changes nothing; the function literal does not capture the object the finalizer
+is attached to -/
+theorem C15_source_collectable (s : Cache.St K V) :
+    Deep.janitorEvent Deep.twinMap Gen.Deep.xsyncMap_janitor Gen.Deep.xsyncMap_finalizer s .stop = some (true, s, []) ∧
+    Deep.janitorEvent Deep.twinMapOf Gen.Deep.xsyncMapOf_janitor Gen.Deep.xsyncMapOf_finalizer s .stop = some (true, s, []) ∧
+    Gen.Deep.xsyncMap_finalizer.target ∉ Gen.Deep.xsyncMap_janitor.captures ∧ Gen.Deep.xsyncMap_janitor.deferStop = true ∧
+    Gen.Deep.xsyncMapOf_finalizer.target ∉ Gen.Deep.xsyncMapOf_janitor.captures ∧ Gen.Deep.xsyncMapOf_janitor.deferStop = true :=
+  ⟨DeepJanitor.stop_returns _ _ _ DeepJanitor.map_stop_clause s, DeepJanitor.stop_returns _ _ _ DeepJanitor.mapOf_stop_clause s,
+    DeepJanitor.map_collectable.1, DeepJanitor.map_collectable.2, DeepJanitor.mapOf_collectable.1, DeepJanitor.mapOf_collectable.2⟩
+
 /-! ### Non-vacuity -/
+/-- a cache with one entry expiring at 5 and one at 50: the first tick (clock 10) removes the first, the second
+(clock 60) the other; then the finalizer ends the goroutine -/
+example : ∃ s' cbs, Deep.janitorRun (K := String) (V := Nat) Deep.twinMap Gen.Deep.xsyncMap_janitor Gen.Deep.xsyncMap_finalizer
+    { items := [("a", ⟨1, 5⟩), ("b", ⟨2, 50⟩)], now := 0, dflt := 0, cb := none } ([10, 50].map .tick ++ [.stop]) =
+    some (true, s', cbs) ∧ s'.items = [] ∧ s'.now = 60 := by
+  obtain ⟨cbs, h⟩ := (C15_source_janitor_life (K := String) (V := Nat) [10, 50]
+    { items := [("a", ⟨1, 5⟩), ("b", ⟨2, 50⟩)], now := 0, dflt := 0, cb := none }).2
+  exact ⟨_, cbs, h, by decide, by decide⟩
 example : (Cache.construct (K := String) (V := Nat) (.newDefault 5 0 none) 0).2 = false := by decide
 example : (Cache.construct (K := String) (V := Nat) (.newDefault 5 (-1) none) 0).2 = false := by decide
 example : (Cache.construct (K := String) (V := Nat) (.newDefault 5 1 none) 0).2 = true := by decide
